@@ -361,7 +361,7 @@ pub fn exec(sc: &Sc) -> Outcome {
 }
 
 pub fn scenarios(tier: Tier) -> Vec<Sc> {
-    let thorough = tier == Tier::Thorough;
+    let thorough = tier >= Tier::Thorough;
     let mut causes: Vec<Cause> = vec![];
     for (code, reason) in [(0u64, vec![]), (7, b"bye".to_vec()), (rc::VARINT_MAX, vec![0xff, 0x00]), (0x100, b"looks like H3_NO_ERROR".to_vec())] {
         causes.push(Cause::PeerQuicClose { code, reason: reason.clone() });
@@ -383,10 +383,20 @@ pub fn scenarios(tier: Tier) -> Vec<Sc> {
             }
         }
     }
-    for su in 0..3usize {
-        for sb in 0..3usize {
+    let stalled_max = if tier >= Tier::Deep { 9usize } else { 3 };
+    if tier >= Tier::Deep {
+        for k in 0..62u32 {
+            out.push(Sc { cause: Cause::PeerQuicClose { code: 1u64 << k, reason: format!("bit {k}").into_bytes() }, role_server: k % 2 == 0, clones: (k % 3) as usize });
+            out.push(Sc { cause: Cause::LocalClose { code: (1u64 << k) | 1, reason: vec![b'x'; k as usize] }, role_server: k % 2 == 1, clones: (k % 4) as usize });
+        }
+        for k in 0..32u32 {
+            out.push(Sc { cause: Cause::PeerCapsule { code: 1u32 << k, reason: vec![b'r'; (k * 33) as usize % 1025] }, role_server: k % 2 == 0, clones: 1 });
+        }
+    }
+    for su in 0..stalled_max {
+        for sb in 0..stalled_max {
             for role in [true, false] {
-                for clones in [0usize, 2] {
+                for clones in if tier >= Tier::Deep { vec![0usize, 1, 2, 4] } else { vec![0usize, 2] } {
                     if !thorough && clones == 2 && su + sb > 1 {
                         continue;
                     }
